@@ -165,8 +165,16 @@ def run_shard(prop_id, seed, shard, tier, examples, timeout):
         test()
     except Violation:
         out["violation"] = state["fail"]
-    except BaseException:  # generator bug, sandbox error, flaky replay ...
-        out["error"] = traceback.format_exc()[-3000:]
+    except BaseException as e:  # generator bug, sandbox error, flaky replay ...
+        flaky = type(e).__name__ in ("Flaky", "FlakyFailure", "FlakyReplay") or "Flaky" in type(e).__name__
+        if flaky and state["fail"] is not None:
+            # a violation was observed, but the same world did not fail again inside this interpreter: the behaviour of
+            # the code under test depends on process history (caches, object identity reuse, ...).  Report what was
+            # observed; the replay is the whole shard.
+            out["violation"] = state["fail"]
+            out["history_dependent"] = True
+        else:
+            out["error"] = traceback.format_exc()[-3000:]
     finally:
         faulthandler.cancel_dump_traceback_later()
         core.cleanup_all()
@@ -290,7 +298,7 @@ def replay_file(path, quiet=False):
     return 0
 
 
-def confirm_in_fresh_interpreter(path, clauses):
+def confirm_in_fresh_interpreter(path, clauses, any_clause=False):
     env = dict(os.environ)
     env["PYTHONHASHSEED"] = "0"
     p = subprocess.run([PY, os.path.join(VERIF, "sim", "cli.py"), "replay", path],
@@ -299,7 +307,8 @@ def confirm_in_fresh_interpreter(path, clauses):
     for ln in p.stdout.splitlines():
         if ln.startswith("REPLAY-CLAUSES "):
             got = json.loads(ln[len("REPLAY-CLAUSES "):])
-    return p.returncode == 1 and got is not None and set(clauses) & set(got), p.stdout[-2000:] + p.stderr[-2000:]
+    same = got is not None and (bool(got) if any_clause else bool(set(clauses) & set(got)))
+    return p.returncode == 1 and same, p.stdout[-2000:] + p.stderr[-2000:]
 
 
 def run_shard_in_fresh_interpreter(prop_id, seed, shard, tier, examples, timeout, hashseed):
@@ -428,17 +437,22 @@ def run_check(prop_id, tier, seed=None, workers=None, shards=None, examples=None
         if r.get("error"):
             harness_errors.append(f"shard {s}: {r['error']}")
         if r.get("violation"):
-            path = write_replay(prop_id, seed, s, r["violation"], r["cfg"])
             clauses = [v["clause"] for v in r["violation"]["violations"]]
-            ok, txt = confirm_in_fresh_interpreter(path, clauses)
-            if not ok and any("narrow" in v for v in r["violation"]["violations"]):
+            if r.get("history_dependent"):
+                ok, txt = False, "the failing world did not fail again inside the same interpreter"
+                path = None
+            else:
+                path = write_replay(prop_id, seed, s, r["violation"], r["cfg"])
+                ok, txt = confirm_in_fresh_interpreter(path, clauses)
+            if not ok and path and any("narrow" in v for v in r["violation"]["violations"]):
                 path = write_replay(prop_id, seed, s, r["violation"], r["cfg"], use_narrow=False)
                 ok, txt = confirm_in_fresh_interpreter(path, clauses)
             if not ok:
                 # the failure needs the history of the interpreter that found it (state carried from earlier worlds
                 # of the shard): the replay is then the whole shard, which is deterministic in a fresh interpreter
                 path = write_shard_replay(prop_id, seed, s, tier, tcfg["examples"], r["violation"], r["cfg"])
-                ok, txt = confirm_in_fresh_interpreter(path, clauses)
+                # history-dependent behaviour may surface as a neighbouring clause when the shard is re-run
+                ok, txt = confirm_in_fresh_interpreter(path, clauses, any_clause=True)
             if ok:
                 if len(violations) < 5:
                     print(f"VIOLATION property={prop_id} replay={path}", flush=True)
